@@ -30,6 +30,7 @@ import (
 	"github.com/streamingfast/substreams/pipeline/exec"
 	"github.com/streamingfast/substreams/reqctx"
 	"github.com/streamingfast/substreams/service"
+	"github.com/streamingfast/substreams/sqe"
 	"github.com/streamingfast/substreams/storage/execout"
 	pboutput "github.com/streamingfast/substreams/storage/execout/pb"
 	"github.com/streamingfast/substreams/storage/index"
@@ -72,6 +73,24 @@ func jobsProg(variant int) sysProg {
 	}
 	out := sysMod{Name: "out", Kind: "map", Inputs: []ainput{{K: "map", V: "m_src"}, {K: "store", V: "st2", Mode: "get"}, {K: "store", V: "st1", Mode: "deltas"}}, Filter: []any{}, Body: body("map")}
 	out.Body.Terms = []vterm{{T: "in", I: 0, C: 1}, {T: "get", I: 1, C: 10, Key: "b", How: "last", Num: true}, {T: "dcount", I: 2, C: 1000}}
+	if variant == 4 {
+		// a block index and TWO mappers filtered on it with a shared key; the first one starts strictly inside segment 1
+		idx := sysMod{Name: "idx", Kind: "index", Inputs: []ainput{{K: "source", V: blockType}}, Filter: []any{}, Body: body("index")}
+		idx.Body.Keys = []vkey{{Key: "even", When: whenMod(2, 0)}, {Key: "t3", When: whenMod(3, 0)}}
+		flt := func(q string) []any {
+			e, err := sqe.Parse(context.Background(), q)
+			if err != nil {
+				panic(err)
+			}
+			return []any{"idx", astJSON(e)}
+		}
+		f2 := sysMod{Name: "m_f2", Kind: "map", Init: 5, Inputs: []ainput{{K: "source", V: blockType}}, Filter: flt("even"), Query: "even", Body: body("map")}
+		f2.Body.Terms = []vterm{{T: "num", C: 3}, {T: "const", C: 1}}
+		out.Inputs = []ainput{{K: "map", V: "m_src"}, {K: "store", V: "st1", Mode: "get"}, {K: "map", V: "m_f2"}}
+		out.Body.Terms = []vterm{{T: "in", I: 0, C: 1}, {T: "get", I: 1, C: 10, Key: "b", How: "last", Num: true}, {T: "in", I: 2, C: 1000}}
+		out.Filter, out.Query = flt("even"), "even"
+		return sysProg{src, idx, f2, st1, out}
+	}
 	return sysProg{src, st1, st2, out}
 }
 
@@ -218,9 +237,12 @@ func runJobs(a *args) error {
 	}
 	defer os.RemoveAll(root)
 	r := rand.New(rand.NewSource(a.seed))
-	variants := []int{0, 1}
+	variants := []int{0, 1, 4}
 	if a.tier == "thorough" {
-		variants = []int{0, 1, 2, 3}
+		variants = []int{0, 1, 2, 3, 4}
+	}
+	if a.extra == "idx" {
+		variants = []int{4}
 	}
 	for _, variant := range variants {
 		prog := jobsProg(variant)
